@@ -39,6 +39,9 @@ type Base struct {
 
 func New() *Base { return &Base{Inner: kv.NewMemoryKV()} }
 
+// NewOn wraps another kv.Base (e.g. kv.NewEtcdKVBase).
+func NewOn(inner kv.Base) *Base { return &Base{Inner: inner} }
+
 // Plan arms a fault for the n-th write from now on and clears the log.
 func (b *Base) Plan(n int, m Mode) {
 	b.mu.Lock()
